@@ -59,6 +59,15 @@ pub fn replace(ms: &ModuleSet, src: &mut Src, allow_reloid: bool) -> (ModuleSet,
                 1 if allow_reloid => raw(&name, &format!("{name} RELATIVE-OID ::= {{ 3 4 }}"), "reloid-value"),
                 // (a REAL value vanishes silently as well — finding F-real-val — same treatment)
                 2 if allow_reloid => raw(&name, &format!("{name} REAL ::= 15"), "real-value"),
+                // a SEQUENCE value that cannot be linked (it names a component the type does not
+                // have): unsupported value form whose only trace is the linker's warning
+                0 if src.chance(50) => {
+                    let helper = format!("Zz-Pair{mi}");
+                    if !out.modules[mi].items.iter().any(|i| i.name() == helper) {
+                        out.modules[mi].items.push(raw(&helper, &format!("{helper} ::= SEQUENCE {{ first INTEGER , second BOOLEAN OPTIONAL }}"), "helper-type"));
+                    }
+                    raw(&name, &format!("{name} {helper} ::= {{ first 1 , third 3 }}"), "unlinkable-struct-value")
+                }
                 _ => raw(&name, &format!("{name} VideotexString ::= \"abc\""), "videotex-value"),
             },
             Item::Raw { .. } => continue,
